@@ -117,7 +117,8 @@ def run_one(rng, res: CaseResult):
             res.violate(f'the source directory was modified by the migration: {diff}', witness=witness, facts={'tag': 'source_modified'})
             return
         # the results were carried over: the target must not depend on the source directory any more
-        (lab.root / 'src_data').rename(lab.root / 'src_data_moved_away')
+        if (lab.root / 'src_data').exists():
+            (lab.root / 'src_data').rename(lab.root / 'src_data_moved_away')
         # parameter-mode chain on the target
         s5 = [{'op': 'build', 'chain': 'new', 'root': root, 'data_dir_name': 'target'}, {'op': 'inspect', 'chain': 'new', 'what': 'has_data', 'data_dir_name': 'target'}]
         order = list(names)
